@@ -157,6 +157,29 @@ def run_case(rec, ptype, cls, data, pattern):
             rec.viol('roundtrip-payload-' + kind,
                      'decoding %s gave %s, expected %s' % (
                          _short(wire), _short(back.data), _short(want)), case)
+        if isinstance(back.data, (dict, list)):
+            # the decoded value belongs to whoever decoded it: changing it
+            # must not change what the same wire text decodes to next time
+            rec.count('decode_after_mutation')
+            if isinstance(back.data, dict):
+                back.data['__changed_by_the_application__'] = [1]
+                back.data.pop(next(iter(back.data)), None)
+            else:
+                back.data.append('__changed_by_the_application__')
+                del back.data[0]
+            try:
+                again = packet.Packet(encoded_packet=wire)
+                if not gen.same(again.data, want):
+                    rec.viol('decode-depends-on-earlier-decodes', 'decoding '
+                             '%s a second time, after the application '
+                             'changed the value the first decode returned, '
+                             'gave %s, expected %s' % (
+                                 _short(wire), _short(again.data),
+                                 _short(want)), case)
+            except Exception as e:
+                rec.viol('decode-raises', 'second decoding of %s raised %r' %
+                         (_short(wire), e), case)
+            back = packet.Packet(encoded_packet=wire)
         if back.binary != gen.is_binary(data):
             rec.viol('roundtrip-binary-flag', 'decoding %s gave binary=%r' % (
                 _short(wire), back.binary), case)
